@@ -408,6 +408,15 @@ func lockstep(c config, p rProg, ref *refState, obs *observation) lsResult {
 					witness += fmt.Sprintf(" producer of %s (step %d) wrote back in cycle %d;", regNames[reg], prod, pd.WBCycle)
 				}
 				if !possible && witness != "" {
+					// the same bits may also be a wrong-path or a younger value: those have their own mechanisms
+					explainNoStale = true
+					alt := explain(p, ref, k, got, obs.Log[d.Exec].Mem, squashedRegVals(dyn, obs))
+					explainNoStale = false
+					if strings.HasPrefix(alt, "wrong-path-operand") || strings.HasPrefix(alt, "future-operand") {
+						res.Sub = alt
+					}
+				}
+				if !possible && witness != "" && strings.HasPrefix(res.Sub, "stale-operand(") {
 					res.Sub = strings.Replace(res.Sub, "stale-operand(", "stale-operand-avail(", 1)
 					timing = fmt.Sprintf(" {%s consumer dispatched in cycle %d, executed in %d; no older writer of a source register in flight or landing out of order, no younger writer landed before the execution}", witness, d.DispCycle, d.ExecCycle)
 				}
@@ -488,6 +497,10 @@ func lockstep(c config, p rProg, ref *refState, obs *observation) lsResult {
 
 // explain tries to reproduce the observed effect of reference step k by
 // re-evaluating the instruction with alternative inputs.
+// explainNoStale makes explain skip stale-value candidates (set only for the retry in lockstep: when no
+// known mechanism can have handed the instruction an older value, another reading of the same bits is looked for).
+var explainNoStale bool
+
 func explain(p rProg, ref *refState, k int, got effect, gotMem []int8, wrongPath map[int][]int32) string {
 	step := ref.Trace[k]
 	in := p.Ins[step.Idx]
@@ -600,13 +613,13 @@ func explain(p rProg, ref *refState, k int, got effect, gotMem []int8, wrongPath
 		cs := []cand{{cur, 0, 0}}
 		vals, _ := hist(r)
 		vals = append(vals, initial(r))
-		for age := 1; age < len(vals) && age <= 12; age++ {
+		for age := 1; age < len(vals) && age <= 12 && !explainNoStale; age++ {
 			cs = append(cs, cand{vals[age], 1, age})
 		}
 		for _, v := range wrongPath[r] {
 			cs = append(cs, cand{v, 3, 0})
 		}
-		for j := k + 1; j < len(ref.Trace) && j <= k+10; j++ {
+		for j := k + 1; j < len(ref.Trace) && j <= k+40; j++ {
 			t := ref.Trace[j]
 			if t.Res.WroteReg && p.Ins[t.Idx].Rd == r {
 				cs = append(cs, cand{t.Res.Val, 2, j - k})
@@ -770,11 +783,16 @@ func commitMechanisms(p rProg, ref *refState, dyn []dynIns, surv []int, obs *obs
 			}
 		}
 		if k < len(ref.Trace) && k < len(surv) && dyn[surv[k]].Exec > 0 {
-			for j := k + 1; j < len(ref.Trace) && j < len(surv) && j <= k+32; j++ {
-				if ref.Trace[j].Res.WroteReg && p.Ins[ref.Trace[j].Idx].Rd == reg {
-					if w := dyn[surv[j]].WBIdx; w > 0 && w < dyn[surv[k]].Exec && branchBetween(w, dyn[surv[k]].Exec) {
-						readLate = true
-					}
+			// younger in fetch order, squashed or not: a value that a younger branch committed too early may come
+			// from an instruction that was squashed afterwards
+			ci := surv[k]
+			for dj := ci + 1; dj < len(dyn) && dj <= ci+48; dj++ {
+				ii := int(dyn[dj].Pc / 4)
+				if ii < 0 || ii >= len(p.Ins) || p.Ins[ii].Rd != reg {
+					continue
+				}
+				if w := dyn[dj].WBIdx; w > 0 && w < dyn[ci].Exec && branchBetween(w, dyn[ci].Exec) {
+					readLate = true
 				}
 			}
 		}
